@@ -3,6 +3,7 @@
 //   cfg <target> <min> <sample>          -> ok   (fresh table + coordinator with this config)
 //   peer <id> <ttl_s>                    -> ok   (register_peer with expiry now+ttl)
 //   load <id> <active_up> <pending_up> <seed_roles> <reputation|-> <choked 0|1> -> ok
+//   tself <id>                           -> ok   (fresh routing table kept under local id <id>; self stays s0)
 //   adv <ns>                             -> ok
 //   plan <chunk> <threshold> <labels l.l.l|->  -> c=<candidates>|a=<peer:l.l;peer:l>
 #include "common/lineproto.hpp"
@@ -55,6 +56,12 @@ int main(int argc, char** argv) {
             cfg.swarm_min_providers = static_cast<std::uint16_t>(std::stoul(t[2]));
             cfg.swarm_candidate_sample = static_cast<std::uint16_t>(std::stoul(t[3]));
             fresh();
+            return "ok";
+        }
+        if (t[0] == "tself" && t.size() == 2) {
+            // the routing table handed to compute_plan may be kept under another local id than the
+            // self_id passed to it (compute_plan takes both): then the table can hold the node's own id
+            table = std::make_unique<KademliaTable>(intern(t[1]), cfg);
             return "ok";
         }
         if (t[0] == "peer" && t.size() == 3) {
